@@ -129,6 +129,9 @@ func (e *eventer) OnJoinEvent(msg *service.Message, key string, err error) {
 	e.r.add(ev)
 }
 func (e *eventer) OnLeaveEvent(key string) {
+	if e.sc.OnLeaveSend && joinSender != nil {
+		joinSender(key) // a callback that talks to the service again: clean-up commands, bookkeeping queries
+	}
 	if e.sc.Silent {
 		return
 	}
